@@ -204,4 +204,184 @@ theorem build_exact_noext (doc : Doc) (d : SchemaD) (v : ValidNoExt doc d) : bui
     List.filter_nil, List.append_nil, extendSchema, hext, v.noSchemaExt, List.isEmpty_nil, Bool.and_self, if_true, toSchemaD]
   exact congrArg Except.ok hd.symm
 
+/-! ### independence of the order of definitions (documents without extensions) -/
+
+private theorem find_perm {α} (name : α → String) (n : String) {l₁ l₂ : List α} (hp : l₁.Perm l₂) :
+    (l₁.map name).Nodup → l₁.find? (fun x => name x == n) = l₂.find? (fun x => name x == n) := by
+  induction hp with
+  | nil => intro _; rfl
+  | cons x _ ih =>
+    intro hn
+    simp only [List.map_cons, List.nodup_cons] at hn
+    simp only [List.find?_cons]
+    rw [ih hn.2]
+  | swap x y l =>
+    intro hn
+    simp only [List.map_cons, List.nodup_cons, List.mem_cons, not_or] at hn
+    simp only [List.find?_cons]
+    cases hx : (name x == n) <;> cases hy : (name y == n) <;> simp
+    have e1 : name x = n := by simpa using hx
+    have e2 : name y = n := by simpa using hy
+    exact absurd (e2.trans e1.symm) hn.1.1
+  | trans h1 h2 ih1 ih2 =>
+    intro hn
+    rw [ih1 hn]
+    exact ih2 ((h1.map name).nodup_iff.mp hn)
+
+/-- the builder's view of a list of definitions does not depend on their order -/
+theorem env_perm {l₁ l₂ : List TypeDef} (hp : l₁.Perm l₂) (hn : (l₁.map (·.name)).Nodup) : Env.of l₁ = Env.of l₂ := by
+  simp only [Env.of, Env.mk.injEq, and_true]
+  funext n
+  exact find_perm (·.name) n hp hn
+
+private theorem mapM_perm {α β} (f : α → R β) {l₁ l₂ : List α} (hp : l₁.Perm l₂) :
+    ∀ r₁, l₁.mapM f = .ok r₁ → ∃ r₂, l₂.mapM f = .ok r₂ ∧ r₁.Perm r₂ := by
+  induction hp with
+  | nil => intro r h; exact ⟨r, h, List.Perm.refl _⟩
+  | @cons x l l' _ ih =>
+    intro r h
+    rw [List.mapM_cons] at h ⊢
+    cases hx : f x with
+    | error e => rw [hx] at h; simp [bind, Except.bind] at h
+    | ok b =>
+      rw [hx] at h
+      simp only [bind, Except.bind] at h ⊢
+      cases hl : l.mapM f with
+      | error e => rw [hl] at h; simp at h
+      | ok bs =>
+        rw [hl] at h
+        simp only [pure, Except.pure, Except.ok.injEq] at h
+        subst h
+        obtain ⟨r₂, h2, hp2⟩ := ih bs hl
+        exact ⟨b :: r₂, by simp [h2, pure, Except.pure], hp2.cons b⟩
+  | swap x y l =>
+    intro r h
+    rw [List.mapM_cons, List.mapM_cons] at h ⊢
+    cases hy : f y with
+    | error e => rw [hy] at h; simp [bind, Except.bind] at h
+    | ok b =>
+      cases hx : f x with
+      | error e => rw [hy, hx] at h; simp [bind, Except.bind] at h
+      | ok a =>
+        cases hl : l.mapM f with
+        | error e => rw [hy, hx, hl] at h; simp [bind, Except.bind] at h
+        | ok bs =>
+          rw [hy, hx, hl] at h
+          simp only [bind, Except.bind, pure, Except.pure, Except.ok.injEq] at h
+          subst h
+          exact ⟨a :: b :: bs, by simp [bind, Except.bind, pure, Except.pure], List.Perm.swap a b bs⟩
+  | trans _ _ ih1 ih2 =>
+    intro r h
+    obtain ⟨r₂, h2, p2⟩ := ih1 r h
+    obtain ⟨r₃, h3, p3⟩ := ih2 r₂ h2
+    exact ⟨r₃, h3, p2.trans p3⟩
+
+private theorem typeDefs_perm {d₁ d₂ : Doc} (hp : d₁.Perm d₂) : (typeDefs d₁).Perm (typeDefs d₂) := hp.filterMap _
+private theorem dirDefs_perm {d₁ d₂ : Doc} (hp : d₁.Perm d₂) : (dirDefs d₁).Perm (dirDefs d₂) := hp.filterMap _
+
+/-- **build_perm** for documents without extensions: two valid documents that differ only in the ORDER of
+    their definitions build schemas with the same content (same types with the same members in the same member
+    order, same directive definitions). Roots: see `build_perm_roots_noext`. -/
+theorem build_perm_noext (doc₁ doc₂ : Doc) (d₁ d₂ : SchemaD) (v₁ : ValidNoExt doc₁ d₁) (v₂ : ValidNoExt doc₂ d₂)
+    (hp : doc₁.Perm doc₂) :
+    build doc₁ = .ok d₁ ∧ build doc₂ = .ok d₂ ∧ d₁.types.Perm d₂.types ∧ d₁.directives.Perm d₂.directives := by
+  refine ⟨build_exact_noext doc₁ d₁ v₁, build_exact_noext doc₂ d₂ v₂, ?_, ?_⟩
+  all_goals
+    obtain ⟨ht1, hd1, _⟩ := declared_parts doc₁ d₁ v₁.declares
+    obtain ⟨ht2, hd2, _⟩ := declared_parts doc₂ d₂ v₂.declares
+    rw [merged_noext doc₁ v₁.noTypeExt] at ht1 hd1
+    rw [merged_noext doc₂ v₂.noTypeExt] at ht2 hd2
+    have henv : Env.of (typeDefs doc₁) = Env.of (typeDefs doc₂) := env_perm (typeDefs_perm hp) v₁.uniqueTypes
+    rw [henv] at ht1 hd1
+  · obtain ⟨r, hr, hperm⟩ := mapM_perm _ (typeDefs_perm hp) _ ht1
+    rw [ht2] at hr
+    cases hr
+    exact hperm
+  · obtain ⟨r, hr, hperm⟩ := mapM_perm _ (dirDefs_perm hp) _ hd1
+    rw [hd2] at hr
+    cases hr
+    exact hperm
+
+private theorem declared_roots (doc : Doc) (d : SchemaD) (h : Declared doc = some d) :
+    (⟨d.query, d.mutation, d.subscription⟩ : Roots) = declaredRoots doc d.types := by
+  unfold Declared at h
+  simp only [] at h
+  split at h
+  · simp only [Option.some.injEq] at h
+    subst h
+    rfl
+  · simp at h
+
+private theorem perm_short {α} {l₁ l₂ : List α} (hp : l₁.Perm l₂) (h : l₁.length ≤ 1) : l₁ = l₂ := by
+  match l₁, l₂, hp with
+  | [], l₂, hp => exact (List.perm_nil.mp hp.symm).symm
+  | [a], l₂, hp => exact (List.perm_singleton.mp hp.symm).symm
+  | _ :: _ :: _, _, _ => simp at h
+
+private theorem any_perm {α} (p : α → Bool) {l₁ l₂ : List α} (hp : l₁.Perm l₂) : l₁.any p = l₂.any p := by
+  induction hp with
+  | nil => rfl
+  | cons x _ ih => simp [List.any_cons, ih]
+  | swap x y l => simp only [List.any_cons]; cases p x <;> cases p y <;> rfl
+  | trans _ _ ih1 ih2 => rw [ih1, ih2]
+
+/-- …and the same root operation types. -/
+theorem build_perm_roots_noext (doc₁ doc₂ : Doc) (d₁ d₂ : SchemaD) (v₁ : ValidNoExt doc₁ d₁) (v₂ : ValidNoExt doc₂ d₂)
+    (hp : doc₁.Perm doc₂) : d₁.query = d₂.query ∧ d₁.mutation = d₂.mutation ∧ d₁.subscription = d₂.subscription := by
+  have hT := (build_perm_noext doc₁ doc₂ d₁ d₂ v₁ v₂ hp).2.2.1
+  have r1 := declared_roots doc₁ d₁ v₁.declares
+  have r2 := declared_roots doc₂ d₂ v₂.declares
+  have hs : schemaDefs doc₁ = schemaDefs doc₂ := perm_short (hp.filterMap _) v₁.oneSchema
+  have hr : declaredRoots doc₁ d₁.types = declaredRoots doc₂ d₂.types := by
+    simp only [declaredRoots, v₁.noSchemaExt, v₂.noSchemaExt, hs, List.foldl_nil]
+    cases schemaDefs doc₂ with
+    | cons sd _ => rfl
+    | nil =>
+      simp only [defaultRoots]
+      rw [any_perm _ hT, any_perm _ hT, any_perm _ hT]
+  rw [← r1, ← r2] at hr
+  simpa [Roots.mk.injEq] using hr
+
+/-! ### non-vacuity: a document with every kind of definition satisfies `ValidNoExt` -/
+
+private instance {ε α} [DecidableEq ε] [DecidableEq α] : DecidableEq (Except ε α) := fun a b =>
+  match a, b with
+  | .ok x, .ok y => if h : x = y then isTrue (by rw [h]) else isFalse (by intro e; cases e; exact h rfl)
+  | .error x, .error y => if h : x = y then isTrue (by rw [h]) else isFalse (by intro e; cases e; exact h rfl)
+  | .ok _, .error _ => isFalse (by intro e; cases e)
+  | .error _, .ok _ => isFalse (by intro e; cases e)
+
+def exDoc : Doc := [
+  .type { kind := .object, name := "Query", desc := some "root",
+          fields := [{ name := "f", type := .named "Int", dirs := [{ name := "deprecated" }],
+                       args := [{ name := "a", type := .list (.named "E"), default := some (.enum "B") },
+                                { name := "i", type := .named "A", default := some (.obj [("a", .obj [])]) }] },
+                     { name := "u", type := .named "U" }, { name := "n", type := .nonNull (.named "N") }] },
+  .directive { name := "d", locations := ["FIELD"], args := [{ name := "x", type := .named "S", default := some (.str "v") }] },
+  .type { kind := .enum, name := "E", values := [{ name := "A" }, { name := "B", dirs := [{ name := "deprecated", args := [("reason", .str "old")] }] }] },
+  .type { kind := .input, name := "A", inputFields := [{ name := "a", type := .named "A" }, { name := "s", type := .named "String", default := some (.str "x") }] },
+  .type { kind := .union, name := "U", members := ["Query", "O"] },
+  .type { kind := .interface, name := "N", fields := [{ name := "n", type := .named "N" }] },
+  .type { kind := .object, name := "O", interfaces := ["N"], fields := [{ name := "n", type := .named "N" }] },
+  .type { kind := .scalar, name := "S" },
+  .schema { ops := [("query", "Query"), ("mutation", "O")] }]
+
+/-- the same definitions in another order -/
+def exDoc' : Doc := exDoc.reverse
+
+private theorem exDeclares : (Declared exDoc).isSome = true := by decide
+private theorem exDeclares' : (Declared exDoc').isSome = true := by decide
+
+example : ValidNoExt exDoc ((Declared exDoc).get exDeclares) :=
+  { uniqueTypes := by decide, uniqueDirectives := by decide, oneSchema := by decide, noBuiltinNames := by decide,
+    noTypeExt := by decide, noSchemaExt := by decide, declares := by simp, noThunkCycle := by decide,
+    noEagerCycle := by decide, noSpecified := by decide, rootsOk := by decide }
+
+example : ValidNoExt exDoc' ((Declared exDoc').get exDeclares') :=
+  { uniqueTypes := by decide, uniqueDirectives := by decide, oneSchema := by decide, noBuiltinNames := by decide,
+    noTypeExt := by decide, noSchemaExt := by decide, declares := by simp, noThunkCycle := by decide,
+    noEagerCycle := by decide, noSpecified := by decide, rootsOk := by decide }
+
+example : exDoc.Perm exDoc' := (List.reverse_perm exDoc).symm
+
 end PyGql.Props.C11
